@@ -147,7 +147,7 @@ theorem inv_clientConnect (cfg : Cfg) (s : St) (c : Nat) (h : Inv cfg s) : Inv c
         rcases hd with hd | hd
         · exact h.sweep rem ai hs ha d hd hm
         · subst hd; rw [hfc.map] at hm; cases hm
-      · intro hs d; rw [hI]; exact h.retOk hs d
+      · intro r hs hr d; rw [hI]; exact h.retOk r hs hr d
       · exact h.lis
       · exact h.lisC
       · exact h.accRet
@@ -207,12 +207,40 @@ theorem inv_shutdownCall (cfg : Cfg) (s : St) (h : Inv cfg s) : Inv cfg (step cf
       simp only [SPc.sweeping.injEq] at he
       rw [← he.1]
       exact List.mem_filter.2 ⟨hc, by simpa using hm⟩
-    · intro he; cases he
+    · intro r he hr; cases he <;> exact absurd rfl hr
     · intro _ hl; simp only [] at hl; simp [hl]
     · intro _; exact Or.inl rfl
     · exact h.accRet
   | sweeping rem ai => simp only []; exact h
-  | returned r => simp only []; exact h
+  | returned r =>
+    cases r with
+    | ok => simp only []; exact h
+    | lerr => simp only []; exact h
+    | ctxErr =>
+      -- Shutdown is called again after a call that gave up: a new sweep over the map as it is now
+      simp only []
+      have hsh : s.isShutdown = true := h.shut.2 (by rw [hs]; intro e; cases e)
+      apply inv_globals cfg s _ h
+      · rfl
+      · rfl
+      · rfl
+      · exact ⟨h.qnodup, fun _ hc => hc⟩
+      · intro c hc; exact Or.inl ⟨hc, (h.accC c hc).2.2⟩
+      · simp [hsh]
+      · intro rem ai he
+        simp only [SPc.sweeping.injEq] at he
+        rw [← he.1]
+        refine ⟨h.nodup.filter _, ?_⟩
+        intro c hc
+        simpa using (List.mem_filter.1 hc).2
+      · intro rem ai he _ c hc hm
+        simp only [SPc.sweeping.injEq] at he
+        rw [← he.1]
+        exact List.mem_filter.2 ⟨hc, by simpa using hm⟩
+      · intro r he hr; cases he <;> exact absurd rfl hr
+      · exact h.lis
+      · exact h.lisC
+      · exact h.accRet
 
 theorem inv_shutdownTick (cfg : Cfg) (s : St) (h : Inv cfg s) : Inv cfg (step cfg s .shutdownTick) := by
   simp only [step]
@@ -236,7 +264,7 @@ theorem inv_shutdownTick (cfg : Cfg) (s : St) (h : Inv cfg s) : Inv cfg (step cf
         · simp [hsh]
         · intro rem ai he; cases he
         · intro rem ai he; cases he
-        · intro _ c
+        · intro r _ _ c
           by_cases hc : c ∈ s.ids
           · cases hm : (s.conns c).inMap with
             | false => rfl
@@ -255,7 +283,7 @@ theorem inv_shutdownTick (cfg : Cfg) (s : St) (h : Inv cfg s) : Inv cfg (step cf
           · simp [hsh]
           · intro rem ai he; cases he
           · intro rem ai he; cases he
-          · intro he; cases he
+          · intro r he hr; cases he <;> exact absurd rfl hr
           · exact h.lis
           · exact h.lisC
           · exact h.accRet
@@ -276,7 +304,7 @@ theorem inv_shutdownTick (cfg : Cfg) (s : St) (h : Inv cfg s) : Inv cfg (step cf
             simp only [SPc.sweeping.injEq] at he
             rw [← he.1]
             exact List.mem_filter.2 ⟨hc, by simpa using hm⟩
-          · intro he; cases he
+          · intro r he hr; cases he <;> exact absurd rfl hr
           · exact h.lis
           · exact h.lisC
           · exact h.accRet
@@ -359,7 +387,7 @@ theorem inv_shutdownScan (cfg : Cfg) (s : St) (c : Nat) (h : Inv cfg s) : Inv cf
           · subst hdc; rw [show ((s.setC d _).conns d).inMap = false from by rw [setC_conns_same]] at hm; cases hm
           · rw [show ((s.setC c _).conns d).inMap = (s.conns d).inMap from by rw [hconn d hdc]] at hm
             exact (herase d).2 ⟨h.sweep rem ai hs (he.2 ▸ hai) d hd hm, hdc⟩
-        · intro he; cases he
+        · intro r he hr; cases he <;> exact absurd rfl hr
         · exact h.lis
         · exact h.lisC
         · exact h.accRet
@@ -378,7 +406,7 @@ theorem inv_shutdownScan (cfg : Cfg) (s : St) (c : Nat) (h : Inv cfg s) : Inv cf
         · intro rem' ai' he hai
           simp only [SPc.sweeping.injEq] at he
           rw [← he.2] at hai; cases hai
-        · intro he; cases he
+        · intro r he hr; cases he <;> exact absurd rfl hr
         · exact h.lis
         · exact h.lisC
         · exact h.accRet
